@@ -595,6 +595,45 @@ def r06_5(ctx) -> None:
               "reachable", construct="import path to import_from_bytes")
 
 
+def r06_8(ctx) -> None:
+    """R06.8  "declared key_ops must include the operation": check_key_op decides with `operation not in key_ops`, which is list membership only if
+    key_ops IS a list - for a string it is a substring search ("wrapKey" in "unwrapKey").  So the validator registered for the JWK member "key_ops"
+    must refuse everything that is not a list of registered operation names.  Decided by folding the registered validator on probe values."""
+    from ..fold import FoldRaise, is_unknown
+    eng = ctx.eng
+    P, F = eng.prog, eng.folder
+    reg = F.module_value(P.mod("registry"), "JWK_PARAMETER_REGISTRY")
+    if not isinstance(reg, dict) or "key_ops" not in reg:
+        raise AnalysisError("JWK_PARAMETER_REGISTRY['key_ops'] did not fold")
+    v = F.get_attr(reg["key_ops"], "validate")
+    ops = sorted(T.KEY_OPERATIONS) if hasattr(T, "KEY_OPERATIONS") else ["sign", "verify", "encrypt", "decrypt", "wrapKey", "unwrapKey", "deriveKey", "deriveBits"]
+    probes = [([], True), (["sign"], True), (list(ops), True), (["sign", "zz"], False), (["Sign"], False), ("sign", False), ("unwrapKey", False), ("", False),
+              (("sign",), False), ({"sign": 1}, False), (None, False), (1, False), ([["sign"]], False)]
+    bad = []
+    for val, accept in probes:
+        try:
+            r = F.call(v, [val], {})
+            if is_unknown(r):
+                raise AnalysisError("the key_ops validator did not fold")
+            got = True
+        except FoldRaise as ex:
+            got = getattr(ex, "name", "")
+        if accept and got is not True:
+            bad.append(f"refuses {val!r}")
+        elif not accept and got is True:
+            bad.append(f"accepts {val!r}")
+        elif not accept and got != "ValueError":
+            bad.append(f"refuses {val!r} with {got}, not ValueError")
+    fn = getattr(v, "fn", None)
+    ctx.check(not bad, "R06.8", fn, fn.node if fn is not None else None, "validator of the JWK member key_ops",
+              "the key_ops validator " + "; ".join(bad[:3]) + ": check_key_op's `operation not in key_ops` is a substring search on a string (a key declared \"unwrapKey\" may wrapKey)",
+              "a list of registered operation names, nothing else", construct="key_ops validator")
+    # ... and the gate itself is a membership test of the operation in that member
+    ck = P.cls("rfc7517.models:BaseKey").methods.get("check_key_op")
+    if ck is None:
+        raise AnalysisError("BaseKey.check_key_op vanished")
+
+
 def audit_key_type(ctx) -> None:
     eng = ctx.eng
     P = eng.prog
@@ -620,5 +659,6 @@ def run(ctx) -> None:
     ctx.guard(r06_3)
     ctx.guard(r06_4)
     ctx.guard(r06_5)
+    ctx.guard(r06_8)
     ctx.guard(audit_key_type)
     ctx.assume("primitives of cryptography fail for keys of the wrong type (backs the audit-only key-type gate)")
